@@ -17,7 +17,7 @@ as its run is finished. One checker process per mutant.
 
 usage: audit.py [-j N] [--json out.json] PROP [PROP...]   |   audit.py --all
 """
-import json, os, shutil, subprocess, sys, tempfile, concurrent.futures as cf
+import re, json, os, shutil, subprocess, sys, tempfile, concurrent.futures as cf
 
 VERIF = os.path.dirname(os.path.dirname(os.path.abspath(__file__)))
 REPO = os.environ.get("VERIF_REPO", "/repo")
@@ -114,6 +114,7 @@ def main():
     outp = None
     props = []
     allp = False
+    only = None
     i = 0
     while i < len(args):
         if args[i] == "-j":
@@ -122,9 +123,13 @@ def main():
             outp = args[i + 1]; i += 2
         elif args[i] == "--all":
             allp = True; i += 1
+        elif args[i] == "--only":
+            only = args[i + 1]; i += 2
         else:
             props.append(args[i]); i += 1
     ms = [m for m in load_mutants() if allp or m["property"] in props]
+    if only:
+        ms = [m for m in ms if re.search(only, m["id"])]
     if not ms:
         print("audit: no mutants registered for", props)
         if outp:
